@@ -101,7 +101,8 @@ fn world(
                 None,
             )
         } else if p.eval_fails {
-            let n = format!("AS-FAIL{i}");
+            // (two failing policies may name the same as-set)
+            let n = format!("AS-FAIL{}", i % 2);
             match mode {
                 FailMode::AsPathRegexp | FailMode::AttributeMatch => {}
                 FailMode::UnknownAsSet => {}
